@@ -67,7 +67,7 @@ Definition logout_sev : list csevent :=
 
 (* redirect to the logout-success page: at most the success flash *)
 Lemma redirect_logout_events h r h' :
-  redirect E (ro_ok p_logout_ok) h = (r, h') ->
+  redirect E (ro_ok (p_logout_ok_of (e_cfg E))) h = (r, h') ->
   (h_sev h' = h_sev h \/ h_sev h' = h_sev h ++ [Put k_flash_ok v_flash]) /\ h_cev h' = h_cev h.
 Proof.
   unfold redirect, ro_ok. cbn [ro_success ro_failure ro_path ro_follow].
